@@ -53,6 +53,10 @@ def run_traces(rep: Any, scenarios: list[dict[str, Any]], label: str, nontrivial
             rep.classified('F9', f'{t["id"]}: the operator never comes to rest: the deletion handlers are run again and again while the object is held '
                                  f'for a daemon that is still stopping ({sum(1 for e in t["events"] if e["ev"] == "inv")} invocations in the kept prefix)',
                            payload={k: t[k] for k in ('id', 'scenario')})
+        elif not t['stall'] and v['verdict'] == 'invariant F38 violated':
+            rep.classified('F38', f'{t["id"]}: the finalizer was removed from a matching object whose mandatory deletion handler had not finished: decided on an '
+                                  f'older view in which the object did not match, sent behind a merge-patch of the same cycle (the version test of the '
+                                  f'JSON-patch is taken from the merged body)', payload=t)
         elif t['stall']:
             rep.violation(f'{t["id"]}: event loop stalled' + (f' (livelock; prefix: {v["verdict"]}, {v.get("excuse")})' if t.get('livelock') else ''), payload=t)
         elif v['verdict'] != 'accepted':
